@@ -7,19 +7,19 @@ namespace Ferrous.Blk
 
 /-! ## The drain after a command -/
 
-theorem InvB_drain (q : Quirks) (hq : Repaired q) (s : State) (hI : InvF s)
+theorem InvB_drain (q : Quirks) (hq : Repaired q) (s : State) (hI : InvF s) (hcalm : Calm s)
     (hlen : q.drainAll = true ∨ s.wakeQ.length ≤ wakeBatch) : InvB (drain q s) := by
   obtain ⟨_, hwap, huas, _, _⟩ := hq
   unfold drain
   simp only [hwap, if_true]
-  refine ⟨InvF_iter_wakeOne q huas _ _ hI, ?_⟩
-  apply iter_wakeOne_quiet
-  split
-  · exact Nat.le_refl _
-  · next h =>
-    rcases hlen with h' | h'
-    · exact absurd h' h
-    · exact h'
+  obtain ⟨h1, h2, h3⟩ := InvF_iter_wakeOne q huas (if q.drainAll = true then s.wakeQ.length + s.registry.length else wakeBatch) s hI hcalm (by
+    split
+    · omega
+    · next h =>
+      rcases hlen with h' | h'
+      · exact absurd h' h
+      · exact h')
+  exact ⟨h1, h3, h2⟩
 
 /-! ## The handlers -/
 
@@ -27,12 +27,52 @@ theorem cntL_zero_of_firstNonEmpty_none {op : Op} {st : List (Key × Elem)} {key
     (h : firstNonEmpty op st keys = none) {k : Key} (hk : k ∈ keys) : st.countP (keyIs k) = 0 :=
   cntL_zero_of_popElem_none (firstNonEmpty_none h k hk)
 
+theorem Calm_of_conns {s t : State} (h : t.conns = s.conns) (hc : Calm s) : Calm t := by
+  unfold Calm; rw [h]; exact hc
+
+/-- A handler blocks nobody but the connection it runs for, which has a peer. -/
+theorem Calm_dataCore (q : Quirks) (now : Nat) (c cid : Conn) (s : State) (cmd : Cmd)
+    (hcalm : Calm s) (ho : Open s c) (hcid : cid = c ∨ cid = 0) : Calm (dataCore q now c cid s cmd) := by
+  have hsb : ∀ (t : State) (b : Option Blocked), t.conns = s.conns → Calm (setBlocked t cid b) := by
+    intro t b ht c' hb
+    rw [setBlocked_peerClosed, ht]
+    rcases hcid with h | h
+    · by_cases hcc : c' = cid
+      · rw [hcc, h]; exact ho.2.2
+      · rw [setBlocked_conns_ne _ _ _ _ hcc, ht] at hb; exact hcalm c' hb
+    · have e : setBlocked t cid b = t := by unfold setBlocked; simp [h]
+      rw [e, ht] at hb; exact hcalm c' hb
+  cases cmd with
+  | push op k vs =>
+    simp only [dataCore]
+    split
+    · exact Calm_of_conns (by simp) hcalm
+    · split
+      · exact Calm_of_conns (by simp) hcalm
+      · exact Calm_of_conns (by simp) hcalm
+  | pop op k =>
+    simp only [dataCore]
+    split
+    · exact Calm_of_conns (by simp) hcalm
+    · exact Calm_of_conns (by simp) hcalm
+  | bpop op keys t =>
+    simp only [dataCore]
+    split
+    · exact Calm_of_conns (by simp) hcalm
+    · split
+      · exact Calm_of_conns (by simp) hcalm
+      · split
+        · exact Calm_of_conns (by simp) hcalm
+        · exact hsb _ _ rfl
+  | multi => exact hcalm
+  | exec => exact hcalm
+
 theorem InvF_dataCore (q : Quirks) (hq : Repaired q) (now : Nat) (c cid : Conn) (s : State) (cmd : Cmd)
     (hnx : ¬ (q.execAtomic = true ∧ cid = 0))
     (hB : InvB s) (ho : Open s c) (hcid : cid = c ∨ cid = 0) (hok : dataOkF q s cid cmd = true) :
     InvF (dataCore q now c cid s cmd) ∧
       (q.drainAll = true ∨ (dataCore q now c cid s cmd).wakeQ.length ≤ wakeBatch) := by
-  obtain ⟨hI, hquiet⟩ := hB
+  obtain ⟨hI, hquiet, _⟩ := hB
   obtain ⟨hc0, hcg, hcp⟩ := ho
   obtain ⟨hnpe, _, _, hrit, hddk⟩ := hq
   have hlen0 : ∀ (t : State), t.wakeQ = s.wakeQ → (q.drainAll = true ∨ t.wakeQ.length ≤ wakeBatch) := by
@@ -112,7 +152,7 @@ theorem InvB_dataCmd (q : Quirks) (hq : Repaired q) (now : Nat) (c cid : Conn) (
   obtain ⟨h1, h2⟩ := InvF_dataCore q hq now c cid s cmd hnx hB ho hcid hok
   unfold dataCmd
   simp only [hnx, if_false]
-  exact InvB_drain q hq _ h1 h2
+  exact InvB_drain q hq _ h1 (Calm_dataCore q now c cid s cmd hB.calm ho hcid) h2
 
 theorem InvB_foldl_dataCmd (q : Quirks) (hq : Repaired q) (now : Nat) (c cid : Conn) (hcid : cid = c ∨ cid = 0)
     (hnx : ¬ (q.execAtomic = true ∧ cid = 0)) (cmds : List Cmd) :
@@ -129,11 +169,17 @@ theorem InvB_foldl_dataCmd (q : Quirks) (hq : Repaired q) (now : Nat) (c cid : C
 theorem InvB_tx {s : State} (hB : InvB s) (ho : Open s c) (f : ConnSt → ConnSt) (r : Reply)
     (hf : ∀ cs, (f cs).blocked = cs.blocked ∧ (f cs).gone = cs.gone ∧ (f cs).peerClosed = cs.peerClosed) :
     InvB (emit (setConn s c f) c r) :=
-  ⟨InvG_emit (InvG_setConn_tx hB.inv c f hf) (Open_setConn_tx ho c f hf).2.2 r, by simp [hB.quiet]⟩
+  ⟨InvG_emit (InvG_setConn_tx hB.inv c f hf) (Open_setConn_tx ho c f hf).2.2 r, by simp [hB.quiet], by
+    intro c' hb
+    rw [emit_conns] at hb ⊢
+    simp only [setConn] at hb ⊢
+    split at hb
+    · rw [(hf _).1] at hb; rw [(hf _).2.2]; exact hB.calm c' hb
+    · next h => simp only [h, if_false]; exact hB.calm c' hb⟩
 
 theorem InvB_topCmd (q : Quirks) (hq : Repaired q) (now : Nat) (c : Conn) (s : State) (cmd : Cmd)
     (hB : InvB s) (ho : Open s c) (hok : topOkF q now c s cmd = true) : InvB (topCmd q now c s cmd) := by
-  have hemit : ∀ r, InvB (emit s c r) := fun r => ⟨InvG_emit hB.inv ho.2.2 r, by simp [hB.quiet]⟩
+  have hemit : ∀ r, InvB (emit s c r) := fun r => ⟨InvG_emit hB.inv ho.2.2 r, by simp [hB.quiet], Calm_of_conns (by simp) hB.calm⟩
   have hqo : ∀ (f : ConnSt → ConnSt) r,
       (∀ cs, (f cs).blocked = cs.blocked ∧ (f cs).gone = cs.gone ∧ (f cs).peerClosed = cs.peerClosed) →
       Open (emit (setConn s c f) c r) c := fun f r hf => Open_emit (Open_setConn_tx ho c f hf) c r
@@ -186,7 +232,12 @@ theorem InvB_topCmd (q : Quirks) (hq : Repaired q) (now : Nat) (c : Conn) (s : S
 theorem InvB_setConn_tx {s : State} (hB : InvB s) (c : Conn) (f : ConnSt → ConnSt)
     (hf : ∀ cs, (f cs).blocked = cs.blocked ∧ (f cs).gone = cs.gone ∧ (f cs).peerClosed = cs.peerClosed) :
     InvB (setConn s c f) :=
-  ⟨InvG_setConn_tx hB.inv c f hf, by simp [hB.quiet]⟩
+  ⟨InvG_setConn_tx hB.inv c f hf, by simp [hB.quiet], by
+    intro c' hb
+    simp only [setConn] at hb ⊢
+    split at hb
+    · rw [(hf _).1] at hb; rw [(hf _).2.2]; exact hB.calm c' hb
+    · next h => simp only [h, if_false]; exact hB.calm c' hb⟩
 
 theorem InvB_runBatch (q : Quirks) (hq : Repaired q) (now : Nat) (c : Conn) (cmds : List Cmd) :
     ∀ s, InvB s → Open s c → batchOkF q now c cmds s = true → InvB (runBatch q now c cmds s) := by
